@@ -20,7 +20,8 @@ MANIFEST = {
                   "logical sequence; and that ts_vsum, ts_vmin, vshift, vsum, vmax give element-wise identical "
                   "results for the same sequence in different input containers and for returned vs. `_to` output "
                   "into Vec / VecDeque / Array1 buffers. Equivalence of the rolling drivers across backends is C02.",
-    "level_note": "trusted: Kani/CBMC/CaDiCaL, stub std::fmt::format; bound: N <= 3 (quick) / <= 4 (thorough), deque "
+    "level_note": "trusted: Kani/CBMC/CaDiCaL, stub std::fmt::format; bound: accessors N <= 3 (quick) / <= 4 (thorough), "
+                  "end-to-end witnesses N = 2 (quick) / <= 4 (thorough), deque "
                   "offsets {0,1} quick / every offset thorough, ndarray steps {1,2,-1} quick / {3,-2} thorough; the "
                   "full function x backend matrix is covered by composition (accessor coherence here + driver "
                   "protocol C02), direct differential runs are witnesses only; Polars backend outside the claim",
@@ -39,8 +40,12 @@ def check(v, tier, opts):
     v.bounds.append("accessor coherence: N in {0,1,2,3} quick, + 4 thorough; i32 / Option<i32> elements unconstrained; "
                     "slice bounds 0 <= a <= b <= N symbolic; out-of-range index any usize >= N; VecDeque ring offsets "
                     "{0,1} quick, {0..N-1} thorough; ndarray view steps {1,2,-1} quick, + {3,-2} thorough")
-    v.bounds.append("end-to-end witnesses: N = 3 quick, 4 thorough; window 1..=N+2, min_periods None or 0..=N+2, "
-                    "lag -N-1..=N+1; Option<i32> values with |x| < 2^20 where an i32 running sum is formed")
+    v.bounds.append("end-to-end witnesses: N = 2 quick, 3 (4) thorough; window 1..=N+2, min_periods None or 0..=N+2; "
+                    "vshift lags -N-1..=N+1 enumerated by a concrete loop; Option<i32> values with |x| < 2^20 where an "
+                    "i32 running sum is formed; quick: ts_vsum Vec vs wrapped VecDeque / reversed ndarray view, vshift Vec "
+                    "vs VecDeque, vsum+vmax over [T;N] / VecDeque / reversed view, ts_vsum returned vs ts_vsum_to into "
+                    "VecDeque and Array1 buffers; thorough adds ts_vmin, rolling_apply Some(out), vshift vs Array1, "
+                    "vsum/vmax over strided view / Arc / Array1")
     v.outside.append("Polars backend (polars-core / arrow object graph not encodable in CBMC): chunked arrays, validity bitmaps")
     v.outside.append("the full function x backend x output matrix is not enumerated: agreement follows from accessor "
                      "coherence (here) and the driver protocol (C02) because every function is generic code over "
